@@ -123,6 +123,13 @@ def clause_e(repo, chk, res):
         cfg = CFG(fn.node)
         for (recv, attr), guards in sorted(guarded_attrs.items()):
             probe = "hasattr(%s,%r)" % (recv, attr)
+            # a flag bound once to the probe (`has_it = hasattr(s, 'hess_inv')`) stands for it
+            flags = set()
+            for st_ in walk_local(fn.node):
+                if isinstance(st_, ast.Assign) and len(st_.targets) == 1 and isinstance(st_.targets[0], ast.Name) and norm_text(st_.value).replace('"', "'").replace(" ", "") == probe:
+                    nm_ = st_.targets[0].id
+                    if sum(1 for y in walk_local(fn.node) if isinstance(y, ast.Name) and y.id == nm_ and isinstance(y.ctx, ast.Store)) == 1:
+                        flags.add(nm_)
 
             def polarity(test):
                 """+1: test true implies the attribute exists; -1: test false implies it; 0: says nothing"""
@@ -131,11 +138,12 @@ def clause_e(repo, chk, res):
                 while isinstance(t, ast.UnaryOp) and isinstance(t.op, ast.Not):
                     t, sign = t.operand, -sign
                 txt = norm_text(t).replace('"', "'").replace(" ", "")
-                if txt == probe:
+                is_probe = lambda v_: norm_text(v_).replace('"', "'").replace(" ", "") == probe or (isinstance(v_, ast.Name) and v_.id in flags)
+                if txt == probe or (isinstance(t, ast.Name) and t.id in flags):
                     return sign
-                if isinstance(t, ast.BoolOp) and isinstance(t.op, ast.And) and sign == 1 and any(norm_text(v).replace('"', "'").replace(" ", "") == probe for v in t.values):
+                if isinstance(t, ast.BoolOp) and isinstance(t.op, ast.And) and sign == 1 and any(is_probe(v) for v in t.values):
                     return 1
-                if isinstance(t, ast.BoolOp) and isinstance(t.op, ast.Or) and sign == -1 and any(norm_text(v).replace('"', "'").replace(" ", "") == probe for v in t.values):
+                if isinstance(t, ast.BoolOp) and isinstance(t.op, ast.Or) and sign == -1 and any(is_probe(v) for v in t.values):
                     return -1
                 return 0
 
@@ -278,6 +286,12 @@ def clause_coord(repo, chk):
                     for rhs in defs.get(nm, []):
                         if rhs is not e and coord(rhs, depth + 1) == "fit":
                             return "fit"
+                    # a module-level helper of the fit driver that builds the objective (wraps it there)
+                    g_ = repo.mod(FIT).funcs.get(FIT + "::" + nm) if hasattr(repo.mod(FIT), "funcs") else None
+                    if g_ is None:
+                        g_ = next((h_ for h_ in repo.func_by_name.get(nm, []) if h_.mod.rel == FIT and h_.cls is None), None)
+                    if g_ is not None and any("." + w + "(" in norm_text(b) for w in WRAP for b in g_.node.body):
+                        return "fit"
             return "raw"
 
         objectives = []
